@@ -13,6 +13,7 @@ use crate::util::{guarded, run_sharded};
 use crate::world::*;
 use redirectionio::action::Action;
 use redirectionio::http::Request;
+use redirectionio::router::IntoRoute;
 use serde::{Deserialize, Serialize};
 use serde_json::{json, Value};
 use std::ffi::{CStr, CString};
@@ -31,6 +32,9 @@ extern "C" {
 #[derive(Clone, Debug, Serialize, Deserialize)]
 pub enum Case {
     Action { rules: Vec<RuleSpec>, sampling_override: Option<bool> },
+    /// rules given as raw JSON (hostile effect values: empty / non-ASCII / control characters / long strings,
+    /// absent and present optional fields, odd selectors and element paths)
+    RawAction { rules: Vec<Value>, sampling_override: Option<bool> },
     Request { world: World, request: ReqSpec },
 }
 
@@ -81,7 +85,149 @@ pub struct Stats {
 }
 
 pub fn check_action(rules: &[RuleSpec], sampling_override: Option<bool>) -> Result<Stats, String> {
-    let a = c05::build_action(rules, sampling_override, None);
+    check_built_action(c05::build_action(rules, sampling_override, None))
+}
+
+/// every rule is `{"source": {"path": "/a"}, ...}`; the request is GET /a
+pub fn check_raw_action(rules: &[Value], sampling_override: Option<bool>) -> Result<Stats, String> {
+    let config = Cfg::plain().build();
+    let mut q = ReqSpec::get("/a");
+    q.sampling_override = sampling_override;
+    let request = q.build(&config);
+    let mut routes = Vec::new();
+    for r in rules {
+        let text = serde_json::to_string(r).unwrap();
+        let rule: redirectionio::api::Rule = serde_json::from_str(&text).map_err(|e| format!("harness: generated rule does not deserialise: {e}: {text}"))?;
+        routes.push(std::sync::Arc::new(rule.into_route(&config)));
+    }
+    check_built_action(Action::from_routes_rule(routes, &request, None))
+}
+
+const HOSTILE: &[&str] = &[
+    "", " ", "x", "\u{e9}t\u{e9}", "\"q\" \\ back", "nul\u{0}byte", "line\nbreak\ttab\r", "<b>&amp;</b>", "@marker and @a", "\u{1F600}\u{200d}", "\u{7f}\u{1b}[0m",
+    "%C3%A9+%20", "{\"json\": [1, null]}", "0", "null", "true",
+];
+
+fn hostile(rng: &mut Rng) -> String {
+    if rng.chance(1, 24) {
+        return "long-".repeat(rng.range(40, 400));
+    }
+    rng.pick(HOSTILE).to_string()
+}
+
+fn opt_str(rng: &mut Rng) -> Value {
+    match rng.below(3) {
+        0 => Value::Null,
+        _ => json!(hostile(rng)),
+    }
+}
+
+/// drop a key or set it to null: both spellings of "absent" must survive
+fn put_opt(map: &mut serde_json::Map<String, Value>, rng: &mut Rng, key: &str, v: Value) {
+    if v.is_null() && rng.coin() {
+        return;
+    }
+    map.insert(key.to_string(), v);
+}
+
+pub fn hostile_rule(rng: &mut Rng, i: usize) -> Value {
+    let mut source = serde_json::Map::new();
+    source.insert("path".into(), json!("/a"));
+    if rng.chance(1, 2) {
+        let codes: Vec<u16> = (0..rng.range(0, 4)).map(|_| *rng.pick(&[200u16, 301, 404, 410, 500, 0, 65535])).collect();
+        source.insert("response_status_codes".into(), json!(codes));
+        if rng.coin() {
+            source.insert("exclude_response_status_codes".into(), json!(rng.coin()));
+        }
+    }
+    if rng.chance(1, 6) {
+        source.insert("sampling".into(), json!(*rng.pick(&[0u32, 100])));
+    }
+    let mut rule = serde_json::Map::new();
+    let id = match rng.below(6) {
+        0 => String::new(),
+        1 => format!("\u{c9}-{i}"),
+        2 => format!("id \"{i}\""),
+        _ => format!("r{i}"),
+    };
+    rule.insert("id".into(), json!(id));
+    rule.insert("rank".into(), json!(rng.below(4)));
+    rule.insert("source".into(), Value::Object(source));
+    if rng.chance(2, 3) {
+        rule.insert("status_code".into(), json!(*rng.pick(&[301u16, 302, 307, 308, 404, 410, 200, 0, 65535])));
+    }
+    if rng.chance(1, 2) {
+        let t = if rng.coin() { format!("/to/{}", hostile(rng)) } else { hostile(rng) };
+        rule.insert("target".into(), json!(t));
+    }
+    let n_h = rng.below(4);
+    if n_h > 0 {
+        let list: Vec<Value> = (0..n_h)
+            .map(|_| {
+                let mut m = serde_json::Map::new();
+                m.insert("action".into(), json!(*rng.pick(&["add", "remove", "replace", "override", "default", "bogus", ""])));
+                m.insert("header".into(), json!(*rng.pick(&["X-A", "x-a", "X-Shared", "", "X-\u{e9}", "Content-Type"])));
+                m.insert("value".into(), json!(hostile(rng)));
+                let v = opt_str(rng);
+                put_opt(&mut m, rng, "id", v);
+                let v = opt_str(rng);
+                put_opt(&mut m, rng, "target_hash", v);
+                Value::Object(m)
+            })
+            .collect();
+        rule.insert("header_filters".into(), json!(list));
+    }
+    let n_b = rng.below(4);
+    if n_b > 0 {
+        let list: Vec<Value> = (0..n_b)
+            .map(|_| {
+                let mut m = serde_json::Map::new();
+                if rng.coin() {
+                    m.insert("action".into(), json!(*rng.pick(&["append_text", "prepend_text", "replace_text"])));
+                    m.insert("content".into(), json!(hostile(rng)));
+                } else {
+                    m.insert("action".into(), json!(*rng.pick(&["append_child", "prepend_child", "replace", "bogus", ""])));
+                    m.insert("value".into(), json!(hostile(rng)));
+                    let v = opt_str(rng);
+                    put_opt(&mut m, rng, "inner_value", v);
+                    let trees: &[&[&str]] = &[&[], &["html", "body"], &["html", "head", "title"], &["html", "body", "p"], &[""], &["html", "\u{e9}l"]];
+                    m.insert("element_tree".into(), json!(rng.pick(trees)));
+                    let sel = match rng.below(6) {
+                        0 | 1 => Value::Null,
+                        2 => json!(""),
+                        3 => json!("p.x"),
+                        4 => json!("[[["),
+                        _ => json!("i, b > em"),
+                    };
+                    put_opt(&mut m, rng, "css_selector", sel);
+                }
+                let v = opt_str(rng);
+                put_opt(&mut m, rng, "id", v);
+                let v = opt_str(rng);
+                put_opt(&mut m, rng, "target_hash", v);
+                Value::Object(m)
+            })
+            .collect();
+        rule.insert("body_filters".into(), json!(list));
+    }
+    if rng.chance(1, 3) {
+        rule.insert("log_override".into(), json!(rng.coin()));
+    }
+    if rng.chance(1, 6) {
+        rule.insert("reset".into(), json!(rng.coin()));
+    }
+    if rng.chance(1, 6) {
+        rule.insert("stop".into(), json!(rng.coin()));
+    }
+    for key in ["redirect_unit_id", "configuration_log_unit_id", "configuration_reset_unit_id", "target_hash"] {
+        if rng.chance(1, 4) {
+            rule.insert(key.into(), json!(hostile(rng)));
+        }
+    }
+    Value::Object(rule)
+}
+
+pub fn check_built_action(a: Action) -> Result<Stats, String> {
     let j = serde_json::to_string(&a).map_err(|e| format!("serialise: {e}"))?;
     let b: Action = serde_json::from_str(&j).map_err(|e| format!("the serialised action does not deserialise: {e}: {j}"))?;
     let j2 = serde_json::to_string(&b).map_err(|e| format!("re-serialise: {e}"))?;
@@ -165,11 +311,22 @@ fn record(case: &Case, report: &mut Report) {
     report.eval();
     let case_json = || serde_json::to_value(case).unwrap();
     match case {
-        Case::Action { rules, sampling_override } => match guarded(|| check_action(rules, *sampling_override)) {
+        Case::Action { .. } | Case::RawAction { .. } => match guarded(|| match case {
+            Case::Action { rules, sampling_override } => check_action(rules, *sampling_override),
+            Case::RawAction { rules, sampling_override } => check_raw_action(rules, *sampling_override),
+            _ => unreachable!(),
+        }) {
             Err(panic) => report.library_panic(&panic),
+            Ok(Err(m)) if m.starts_with("harness:") => report.inconclusive(format!("generated rule rejected by the loader: {m}")),
             Ok(Err(m)) => report.violation("action-roundtrip", m, case_json()),
             Ok(Ok(stats)) => {
                 report.count("actions_round_tripped");
+                if matches!(case, Case::RawAction { .. }) {
+                    report.count("actions_with_hostile_values_round_tripped");
+                    if stats.json.contains("\"content\":\"\"") || stats.json.contains("\"value\":\"\"") {
+                        report.count("actions_with_empty_filter_value");
+                    }
+                }
                 if stats.has_effects {
                     report.nontrivial(fnv_str(&stats.json));
                 }
@@ -220,6 +377,14 @@ pub fn run(ctx: &Ctx, _args: &Args) -> i32 {
             };
             record(&case, report);
         }
+        for _ in 0..(n_actions / 2 / jobs as u64) {
+            let n = rng.range(1, 5);
+            let case = Case::RawAction {
+                rules: (0..n).map(|i| hostile_rule(&mut rng, i)).collect(),
+                sampling_override: *rng.pick(overrides),
+            };
+            record(&case, report);
+        }
         for _ in 0..(n_worlds / jobs as u64) {
             let world = super::c01::random_world(&mut rng, 8);
             let model = Model::new(&world.cfg, &world.rules);
@@ -239,7 +404,7 @@ pub fn run(ctx: &Ctx, _args: &Args) -> i32 {
     finish(
         ctx,
         report,
-        "actions built by Action::from_routes_rule from the C05 effect grid (fallback status, both body-filter variants of the untagged union, optional ids, log override with fallback, empty action), observed with the C05 protocol at 6 codes before and after serde_json and C-entry-point round trips; requests from the C01 generator (+ marketing parameters, upper-case and non-ASCII URLs, IPv6, sub-second timestamps, sampling override) matched before/after the round trip, raw and normalised. non-trivial = distinct serialised action with a status update or at least one filter",
+        "actions built by Action::from_routes_rule from the C05 effect grid (fallback status, both body-filter variants of the untagged union, optional ids, log override with fallback, empty action) and from rules with hostile effect values (empty, non-ASCII, control and NUL characters, long strings, present/absent/null optional fields, odd selectors and element paths, status 0/65535), observed with the C05 protocol at 6 codes before and after serde_json and C-entry-point round trips; requests from the C01 generator (+ marketing parameters, upper-case and non-ASCII URLs, IPv6, sub-second timestamps, sampling override) matched before/after the round trip, raw and normalised. non-trivial = distinct serialised action with a status update or at least one filter",
         &["serde_json", "wasm bindings are not compiled on this target (not claimed)"],
         started,
         200,
@@ -257,6 +422,11 @@ pub fn replay(_ctx: &Ctx, case: &Value) -> i32 {
     };
     let failures = match &case {
         Case::Action { rules, sampling_override } => match guarded(|| check_action(rules, *sampling_override)) {
+            Err(p) => vec![format!("panic: {p}")],
+            Ok(Err(m)) => vec![m],
+            Ok(Ok(_)) => vec![],
+        },
+        Case::RawAction { rules, sampling_override } => match guarded(|| check_raw_action(rules, *sampling_override)) {
             Err(p) => vec![format!("panic: {p}")],
             Ok(Err(m)) => vec![m],
             Ok(Ok(_)) => vec![],
